@@ -34,13 +34,13 @@ def main():
     for lg in logs:
         for line in open(lg):
             m = re.match(r"(\S+/seeded_(C\d\d)/(\d)) pristine_demo=(\d+) patched_demo=(\d+) suite: (.*)", line.strip()) or \
-                re.match(r"(\S+/seeded\d_[STUVW]\d/(C\d\d)-(\d)) pristine_demo=(\d+) patched_demo=(\d+) suite: (.*)", line.strip())
+                re.match(r"(\S+/seeded\d_[STUVWX]\d/(C\d\d)-(\d)) pristine_demo=(\d+) patched_demo=(\d+) suite: (.*)", line.strip())
             if m:
                 confirmed[(m.group(2), m.group(3))] = dict(dir=m.group(1), pristine_demo_exit=int(m.group(4)), patched_demo_exit=int(m.group(5)), suite=m.group(6))
     outcomes = {}
     if checks_file:
         for line in open(checks_file):
-            m = re.match(r"\S+/seeded_(C\d\d)/(\d) :(.*)", line.strip()) or re.match(r"\S+/seeded\d_[STUVW]\d/(C\d\d)-(\d) :(.*)", line.strip())
+            m = re.match(r"\S+/seeded_(C\d\d)/(\d) :(.*)", line.strip()) or re.match(r"\S+/seeded\d_[STUVWX]\d/(C\d\d)-(\d) :(.*)", line.strip())
             if m:
                 outcomes[(m.group(1), m.group(2))] = {k: int(v) for k, v in (x.split("=") for x in m.group(3).split())}
     n = 0
